@@ -427,14 +427,13 @@ def t8(rep):
             rep.violation("T8", "callers:" + callee, "genc.c", "%s is no longer called from %s" % (callee, sorted(w - got)))
 
 
-def t10(rep):
+def t10(rep, rule="T10"):
     """String and character constants reach the generated C through ccoPrToken.  A byte it does not print as itself must be written
     as an escape denoting that byte and nothing else: the value taken as unsigned char (a plain char of 0x80 or more is negative and
     prints as 11 octal digits) and the escape of fixed width (an octal escape takes up to three digits, so a shorter one absorbs a
-    following digit character)."""
+    following digit character).  This holds for every formatted escape of the function, in whichever C dialect it is used."""
     f = common.extract("ccode.c", trees=["ccoPrToken"])
     fn = f.func("ccoPrToken")
-    where = "ccode.c:%d (ccoPrToken)" % fn["l"]
     esc = []
     for c in calls(fn["body"]):
         if c.get("callee") in ("ccoPrintf", "sprintf", "fprintf", "printf"):
@@ -442,38 +441,44 @@ def t10(rep):
                 sv = string_value(a)
                 if sv is not None and "%" in sv and "\\" in sv:
                     esc.append((c, sv))
-    if len(esc) != 1:
-        raise AnalysisBroken("ccoPrToken: expected one formatted escape (found %d)" % len(esc))
-    call, fmt = esc[0]
-    m = re.search(r"\\x?%([#0-9.]*)([oxX])", fmt)
-    if m is None:
-        raise AnalysisBroken("ccoPrToken: escape format %r not understood" % fmt)
-    if m.group(2) == "o" and m.group(1) in ("03", ".3") and "\\x" not in fmt:
-        rep.ok("T10", "string-escape:fixed-width", sample={"format": fmt})
-    else:
-        rep.violation("T10", "string-escape:fixed-width", "ccode.c:%d (ccoPrToken)" % call["l"],
-                      "a non-printable byte of a string constant is written with %r: %s, so the executable's string differs from the "
-                      "interpreter's" % (fmt, "a hexadecimal escape has no length limit and absorbs following hex digits (\"Gr\\xc3\\xb6\\xc3\\x9fe\": `\\x9fe` is one escape)" if m.group(2) != "o" or "\\x" in fmt
-                                         else "an octal escape of fewer than three digits absorbs a following digit character ('\\1' '7' "
-                                         "becomes '\\17')"))
-    val = [strip(a) for a in call["c"][2:]]
-    if len(val) != 1 or val[0] is None or val[0]["k"] != "DeclRefExpr":
-        raise AnalysisBroken("ccoPrToken: the escaped value is not a plain variable")
-    var = val[0]["n"]
-    loads = [x for x in walk(fn["body"]) if x["k"] == "BinaryOperator" and x["op"] == "=" and (strip(x["c"][0]) or {}).get("n") == var
-             and any(y["k"] == "UnaryOperator" and y.get("op") == "*" for y in walk(x["c"][1]))]
-    if not loads:
-        raise AnalysisBroken("ccoPrToken: no load of '%s' from the string" % var)
-    bad = [x for x in loads if not any((y["k"] == "CStyleCastExpr" and y.get("tc") == "u8") or
-                                       (y["k"] == "BinaryOperator" and y["op"] == "&" and const_value(y["c"][1]) == 255)
-                                       for y in walk(x["c"][1]))]
-    if not bad:
-        rep.ok("T10", "string-escape:byte-unsigned", sample={"loads": len(loads)})
-    else:
-        rep.violation("T10", "string-escape:byte-unsigned", "ccode.c:%d (ccoPrToken)" % bad[0]["l"],
-                      "`%s` reads a byte of the constant through plain char: a byte of 0x80 or more is negative, isprint() of it is "
-                      "undefined and its octal form has eleven digits, so a non-ASCII string literal is different text in the "
-                      "executable" % common.render(bad[0])[:60])
+    if not esc:
+        raise AnalysisBroken("ccoPrToken: no formatted escape found")
+    vars_ = set()
+    for i, (call, fmt) in enumerate(esc):
+        m = re.search(r"\\x?%([#0-9.]*)([oxX])", fmt)
+        if m is None:
+            raise AnalysisBroken("ccoPrToken: escape format %r not understood" % fmt)
+        key = "string-escape:fixed-width" + ("" if i == 0 else ":%d" % (i + 1))
+        if m.group(2) == "o" and m.group(1) in ("03", ".3") and "\\x" not in fmt:
+            rep.ok(rule, key, sample={"format": fmt})
+        else:
+            rep.violation(rule, key, "ccode.c:%d (ccoPrToken)" % call["l"],
+                          "a non-printable byte of a string constant is written with %r: %s, so the executable's string differs from the "
+                          "interpreter's (and from the same program compiled for the other C dialect)"
+                          % (fmt, "a hexadecimal escape has no length limit and absorbs following hex digits (\"Gr\\xc3\\xb6\\xc3\\x9fe\": `\\x9fe` is one escape)" if m.group(2) != "o" or "\\x" in fmt
+                             else "an octal escape of fewer than three digits absorbs a following digit character ('\\1' '7' "
+                             "becomes '\\17')"))
+        val = [strip(a) for a in call["c"][2:]]
+        if len(val) != 1 or val[0] is None or val[0]["k"] != "DeclRefExpr":
+            raise AnalysisBroken("ccoPrToken: the escaped value is not a plain variable")
+        vars_.add(val[0]["n"])
+    if rule != "T10":
+        return
+    for var in sorted(vars_):
+        loads = [x for x in walk(fn["body"]) if x["k"] == "BinaryOperator" and x["op"] == "=" and (strip(x["c"][0]) or {}).get("n") == var
+                 and any(y["k"] == "UnaryOperator" and y.get("op") == "*" for y in walk(x["c"][1]))]
+        if not loads:
+            raise AnalysisBroken("ccoPrToken: no load of '%s' from the string" % var)
+        bad = [x for x in loads if not any((y["k"] == "CStyleCastExpr" and y.get("tc") == "u8") or
+                                           (y["k"] == "BinaryOperator" and y["op"] == "&" and const_value(y["c"][1]) == 255)
+                                           for y in walk(x["c"][1]))]
+        if not bad:
+            rep.ok("T10", "string-escape:byte-unsigned", sample={"loads": len(loads)})
+        else:
+            rep.violation("T10", "string-escape:byte-unsigned", "ccode.c:%d (ccoPrToken)" % bad[0]["l"],
+                          "`%s` reads a byte of the constant through plain char: a byte of 0x80 or more is negative, isprint() of it is "
+                          "undefined and its octal form has eleven digits, so a non-ASCII string literal is different text in the "
+                          "executable" % common.render(bad[0])[:60])
 
 
 def t12(rep):
